@@ -75,6 +75,11 @@ def judge_gated(tr, out):
     """Every accepted, non-forced request of a strategy went through the client's transaction-limit control (once per request):
     a request that the control never saw cannot have been refused by it."""
     seqs = [r["seq"] for r in tr.requests] + [float("inf")]
+    for r in tr.requests:
+        # an order that was refused (limit reached) and is offered again is judged by the control again: nothing about the order's
+        # own state stands in the way of placing a never-sent order
+        if r["kind"] == "PLACE" and r.get("exc") == "OrderUpdateError":
+            out.v("placement-refused-because-of-order-state", {"status": (r.get("before") or {}).get("status")}, request={k: r[k] for k in ("seq", "kind", "o")}, msg=r.get("exc_msg"))
     for i, r in enumerate(tr.requests):
         if not r.get("result") or r["force"] or not r["execute"]:
             continue
@@ -97,6 +102,9 @@ def run_sim(desc, out):
         for a in s["actions"]:
             if a["op"] == "place":
                 a["client"] = rng.randrange(ncl)
+    if desc["idx"] % 2 == 0:
+        # orders refused once (limit reached) are offered again later, e.g. in the next hour
+        simgen.usage_variants(case, snaps, simgen.mk_rng(desc["seed"], desc["idx"], 1818), p_reoffer=0.5, p_force_reoffer=0.0)
     tr = simrun.run_case(case)
     O.abort_violation(tr, out)
     client_of = {p["pid"]: p["client"] for p in tr.packages}
@@ -154,6 +162,7 @@ def run_live(desc, out):
 
         ex.plan = fault_plan
         orders = []
+        refused = []
         shadow_upto = [0]
         shadow = []
 
@@ -190,6 +199,14 @@ def run_live(desc, out):
                             o = livecases.make_order(st, mid, sel=rng.choice((701, 702, 703)), side=rng.choice(("BACK", "LAY")), price=3.0, size=2.0)
                             if t.place_order(o, force=rng.random() < 0.1):
                                 orders.append(o)
+                            else:
+                                refused.append(o)
+                        if refused and rng.random() < 0.4:
+                            o = refused.pop(rng.randrange(len(refused)))  # offered again (same client)
+                            if t.place_order(o):
+                                orders.append(o)
+                            else:
+                                refused.append(o)
                 elif k < 0.8:
                     o = rng.choice(orders)
                     op = rng.choice(("cancel", "update", "replace"))
